@@ -36,6 +36,9 @@ func (s *State) evalAssignment(right object.Object, node *ast.InfixExpression) o
 			return s.Errorf("assignment to non index [] expression %T %v", node.Left, ast.DebugString(node.Left))
 		}
 		index := s.Eval(idxE.Index)
+		if index.Type() == object.ERROR {
+			return index
+		}
 		return s.evalIndexAssigment(idxE.Left, index, right)
 	case token.IDENT:
 		id := node.Left.(*ast.Identifier)
@@ -379,11 +382,17 @@ func (s *State) evalMapLiteral(node *ast.MapLiteral) object.Object {
 	for _, keyNode := range node.Order {
 		valueNode := node.Pairs[keyNode]
 		key := s.Eval(keyNode)
+		if key.Type() == object.ERROR {
+			return key // an error in a key or value is the result, not an entry of the map.
+		}
 		if !object.Equals(key, key) {
 			log.Warnf("key %s is not hashable", key.Inspect())
 			return s.NewError("key " + key.Inspect() + " is not hashable")
 		}
 		value := s.Eval(valueNode)
+		if value.Type() == object.ERROR {
+			return value
+		}
 		result = result.Set(key, value)
 	}
 	return result
